@@ -111,11 +111,11 @@ def flat_etree(el):
         tag = n.tag
         if kind == "node" and n.tail:
             stack.append(("tail", n.tail, d))
-        if tag is _ETComment:
+        if tag is _ETComment or (callable(tag) and getattr(tag, "__name__", "") == "Comment"):    # Comment of any ElementTree implementation
             out.append((d, "comment", n.text if n.text is not None else ""))
         elif tag == "<!DOCTYPE>":
             out.append((d, "doctype", n.text or "", n.get("publicId") or "", n.get("systemId") or ""))
-        elif tag is _ETPI:
+        elif tag is _ETPI or callable(tag):
             out.append((d, "other", "pi"))
         else:
             ns, name = _split_clark(tag)
